@@ -1,6 +1,7 @@
 import Oracle.Common
 import MageModel.Gen.StrconvLemmas
 import MageModel.Parse.Fields
+import MageModel.Parse.DocText
 open Lean MageModel.Gen
 namespace Oracle.Conv
 
@@ -18,6 +19,9 @@ def handle (op : String) (j : Json) : R Json := do
   | "conv.word" =>
     let w ← fldStr j "w"
     pure (obj [("atoi", optJ jint (Strconv.atoi w)), ("bool", optJ jbool (Strconv.parseBool w)), ("dur", optJ jint (Strconv.parseDuration w))])
+  | "conv.doctext" =>
+    let cs ← strList (← fld j "comments")
+    pure (obj [("text", jstr (MageModel.Parse.DocText.groupText cs))])
   | "conv.fields" =>
     let c ← fldStr j "c"
     pure (obj [("fields", Json.arr ((MageModel.Parse.commentFields c).map jstr).toArray)])
